@@ -146,6 +146,20 @@ claim('C19', 'proof',
       'Lean 4 proof (names as a second interpretation of the generic model) + verbatim correspondence + name-evaluating oracle',
       'DESIGN.md section 5 C19')
 
+claim('C15', 'other',
+      'The Lean history machine (theorems C15_*) states which histories must be indistinguishable: after ANY history '
+      'without a stop request a fit leaves the state of a fresh estimator with the current parameters; only set_params '
+      'changes parameters; read-only calls are pure, hence every interleaving of reads returns the sequential answers; '
+      'set/get round trips on the flattened name__sub map. The check executes random real histories on every '
+      'estimator class of the package and verifies each of these equalities by deep by-value digests (fresh clone + '
+      'fit vs used instance + fit; parameters and input arrays around every call; reads from 3 threads).',
+      'The theorems are about the machine, which is simple by design; the assurance is the refinement check on real '
+      'histories (sampled). Tolerance instead of bit-equality for KMeans / GaussianMixture / SDP-solver backed '
+      'estimators. CPython cannot enumerate interleavings: the theorem covers all of them given that reads do not '
+      'write, and the digest-around-every-read check ties that premise to the code. Known finding F-stop; fixed F-qmc, F-cache.',
+      'Lean 4 theorems on a history machine + refinement check of real API histories (digests)',
+      'DESIGN.md section 5 C15')
+
 ALL = [f'C{i:02d}' for i in range(1, 21)]
 
 
